@@ -89,7 +89,7 @@ func main() {
 	case "verify", "dump":
 		var obls []*Obligation
 		for n, c := range w.contracts {
-			if c.Assumed || c.Trusted {
+			if c.Assumed || c.Trusted || c.Inline {
 				continue
 			}
 			match := len(args) == 1
